@@ -276,6 +276,20 @@ def handler(ctx):
             ctx.require(ok, 'C06.S6', '%s returns a data source\'s %s(dt, asset) unmodified [%s]' % (qn, src, cond_str(p)[:50]), fn.site(), fmt(v)[:160],
                         key='C06.S6|%s|value' % qn)
             got = got or ok
+            if ok:
+                # the answer is accepted exactly when it is not NaN (a missing value falls through to the next source / NaN)
+                tested = None
+                for c, val, _ in p.conds:
+                    if c == ('call', ('ext', 'ISNAN'), (v,), ()):
+                        tested = (val is False)
+                    elif c[0] == 'cmp' and v in (c[2], c[3]) and NAN in (c[2], c[3]):
+                        tested = 'identity'
+                if tested == 'identity':
+                    ctx.violation('C06.S6', '%s accepts a source value iff it is not NaN' % qn, fn.site(),
+                                  'the value is compared with np.nan by identity/equality: a NaN read from a frame is a different object and is returned as a price',
+                                  key='C06.S6|%s|nan-test' % qn)
+                else:
+                    ctx.require(tested is True, 'C06.S6', '%s accepts a source value iff it is not NaN' % qn, fn.site(), cond_str(p)[:160], key='C06.S6|%s|nan-test' % qn)
         ctx.require(got, 'C06.S6', '%s derives its answer from the data sources' % qn, fn.site(), key='C06.S6|%s|derives' % qn)
         for f2, n in calls_named(ctx.M, src):
             if f2.qn == qn:
